@@ -130,6 +130,10 @@ func findSniExtension(search quicutils.Locator) (d string, err error) {
 			return "", ErrNotApplicable
 		}
 		if typ == TlsExtension_ServerName {
+			// The extension body must at least hold the 2-byte server name list length.
+			if i+6 > iNextField {
+				return "", ErrNotApplicable
+			}
 			b, err = search.Range(i+4, i+6)
 			if err != nil {
 				return "", err
